@@ -12,7 +12,7 @@ from . import core, kitchen, p21model as pm, schemas
 FEATURE_P = {
     "selects": 0.85, "enums": 0.9, "agg_types": 0.8, "nested_agg": 0.8, "multi_inherit": 0.7, "andor": 0.7,
     "derived_redecl": 0.7, "binary": 0.8, "logical": 0.8, "array": 0.8, "select_of_select": 0.6, "unique": 0.5,
-    "cxx_keywords": 0.4, "renamed_types": 0.5, "renamed_enum": 0.4, "explicit_redecl": 0.5, "and_expr": 0.4,
+    "cxx_keywords": 0.4, "renamed_types": 0.5, "renamed_enum": 0.12,       # open finding C01-K4 "explicit_redecl": 0.5, "and_expr": 0.4,
     "mixed_expr": 0.4, "agg_in_select": 0.4,
     "renamed_select": 0.12,     # open finding C01-K3
     "inverse": 0.0,
@@ -155,3 +155,130 @@ def exe_for(ss, plan):
     exe = schemas.p21sim(sd["name"], pm.emit_express(sd), "san")
     ss.items.append({"name": sd["name"], "sd": sd, "exe": exe, "schema": pm.Schema(sd)})
     return exe
+
+
+# --------------------------------------------------------------------------
+# common base for the checks that start from a conforming generated file
+# --------------------------------------------------------------------------
+import copy as _copy
+from .driver import CheckBase as _CheckBase, list_removals as _list_removals
+
+
+class P21Check(_CheckBase):
+    """setup of the schema set, seeded base plans (schema x population x rendering), re-rendering after
+    shrinking, and the shrinking moves that all file-based checks share."""
+    engine = "p21sim"
+    label = "p21"
+    n_generated = {"quick": 3, "thorough": 16}
+    feature_overrides = {"renamed_select": False, "renamed_enum": False}   # constructs of open C01 findings stay out
+    max_insts = 12
+    sizes = [1, 2, 3, 5, 8]
+
+    def setup(self, tier):
+        seed = getattr(self, "seed", None)
+        if seed is None:
+            seed = core.default_seed(tier)
+        if getattr(self, "replay_mode", False):
+            self.ss = SchemaSet()
+            return
+        defs = schema_defs(seed, tier, self.n_generated[tier], label=self.label, feature_overrides=self.feature_overrides)
+        self.ss = build_schema_set(defs)
+        if not self.ss.items:
+            raise RuntimeError("no schema library could be built: %s" % self.ss.rejected)
+
+    def base_plan(self, seed, j, popts=None, n=None, tag="base"):
+        r = core.rng(seed, self.prop, tag, j)
+        it = self.ss.items[j % len(self.ss.items)]
+        po = {"ids": r.choice(["dense", "sparse", "scattered"]), "rich_strings": r.random() < 0.5, "complex": True,
+              "max_insts": self.max_insts, "shuffle": r.random() < 0.2}
+        po.update(popts or {})
+        insts = None
+        for attempt in range(6):
+            try:
+                insts = pm.PopGen(core.rng(seed, self.prop, tag, "pop", j, attempt), it["schema"], po).generate(n or r.choice(self.sizes))
+                break
+            except pm.Infeasible:
+                pass
+        return {"property": self.prop, "schema": it["name"], "schema_def": it["sd"],
+                "model": {"header": pm.default_header(core.rng(seed, self.prop, tag, "hdr", j), it["name"], rich=False), "insts": insts or []},
+                "render": {"p_ws": r.choice([0, 0, 0.1, 0.3]), "p_cmt_between": r.choice([0, 0, 0.2]), "p_cmt_in": 0, "sections": "hif",
+                           "seed": core.derive(seed, self.prop, tag, "render", j)}}
+
+    @staticmethod
+    def render_model(model, rn):
+        """-> (text, render dict with explicit seps)"""
+        lines = pm.file_lines(model["header"], model["insts"])
+        if "seps" not in rn:
+            rn = dict(rn, seps=pm.gen_seps(core.rng(rn["seed"], "r"), lines, rn["p_ws"], rn["p_cmt_between"], rn["p_cmt_in"], rn["sections"]))
+        ntok = {k: len(t) for k, t in lines}
+        rn = dict(rn, seps={k: v for k, v in rn["seps"].items() if int(k.rsplit(":", 1)[1]) < ntok.get(k.rsplit(":", 1)[0], -1)})
+        return pm.render(lines, rn["seps"]), rn
+
+    def exe(self, plan):
+        return exe_for(self.ss, plan)
+
+    def schema_of(self, plan):
+        return pm.Schema(plan["schema_def"])
+
+    def shrink_model(self, plan, keep_ids=(), finish=None):
+        """drop unreferenced instances (never those in keep_ids), drop separators, simplify delivery"""
+        finish = finish or self.finish
+        insts = plan["model"]["insts"]
+        referenced = set(keep_ids)
+        for x in insts:
+            for ref in pm.inst_refs(x):
+                if ref != x["id"]:
+                    referenced.add(ref)
+        free = [n for n, x in enumerate(insts) if x["id"] not in referenced]
+        for keep_free in _list_removals(free, 0):
+            drop = set(free) - set(keep_free)
+            if drop and len(insts) - len(drop) >= 1:
+                c = _copy.deepcopy(plan)
+                c["model"]["insts"] = [x for n, x in enumerate(insts) if n not in drop]
+                yield finish(c)
+        if plan["render"].get("seps"):
+            yield finish(dict(plan, render=dict(plan["render"], seps={})))
+            sk = sorted(plan["render"]["seps"])
+            for keep in _list_removals(sk, 0):
+                yield finish(dict(plan, render=dict(plan["render"], seps={k: plan["render"]["seps"][k] for k in keep})))
+        if plan.get("delivery") and any(x.get("kind") != "whole" for x in plan["delivery"]):
+            yield finish(dict(plan, delivery=[{"kind": "whole"}, {"kind": "whole"}]))
+
+    def extra_coverage(self, tier, results):
+        return {"schemas": [it["name"] for it in self.ss.items], "schemas_rejected": self.ss.rejected}
+
+
+def parse_inst_text(text):
+    """one '#n=...;' record as written by SDAI_Application_instance::STEPwrite -> {"id","parts"}; None if unparsable"""
+    try:
+        p = pm.Parser(text)
+        r = p.expect("ref")
+        p.expect("punct", "=")
+        if p.peek()[0] == "punct" and p.peek()[1] == "(":
+            p.next()
+            parts = []
+            while not (p.peek()[0] == "punct" and p.peek()[1] == ")"):
+                parts.append(p.simple_record())
+            p.next()
+        else:
+            parts = [p.simple_record()]
+        p.expect("punct", ";")
+        return {"id": int(r[1][1:]), "parts": parts}
+    except pm.P21SyntaxError:
+        return None
+
+
+def inst_diff(model_inst, got_inst):
+    """None if the dumped instance denotes the model instance (C01 equivalence), else (class suffix, detail)"""
+    if got_inst is None:
+        return ("unparsable", "instance text could not be parsed")
+    if [p["ent"] for p in model_inst["parts"]] != [p["ent"] for p in got_inst["parts"]]:
+        return ("entity-type", "#%d is %s, expected %s" % (model_inst["id"], [p["ent"] for p in got_inst["parts"]], [p["ent"] for p in model_inst["parts"]]))
+    for mp, gp in zip(model_inst["parts"], got_inst["parts"]):
+        if len(mp["vals"]) != len(gp["vals"]):
+            return ("arity", "#%d %s has %d values, expected %d" % (model_inst["id"], mp["ent"], len(gp["vals"]), len(mp["vals"])))
+        for k, (a, b) in enumerate(zip(mp["vals"], gp["vals"])):
+            d = pm.value_diff(a, b, "#%d.%s[%d]" % (model_inst["id"], mp["ent"], k))
+            if d:
+                return ("value/" + d[0], d[1])
+    return None
